@@ -958,6 +958,18 @@ impl ThetaSketchBuilder {
     }
 }
 
+#[cfg(feature = "verif-hooks")]
+impl ThetaSketch {
+    /// Verification hook: offer an already-computed 63-bit hash value (screened against theta
+    /// exactly as `update` does after hashing).
+    #[doc(hidden)]
+    pub fn verif_insert_hash(&mut self, hash: u64) {
+        if hash != 0 && hash < self.table.theta() {
+            self.table.try_insert(hash);
+        }
+    }
+}
+
 #[cfg(test)]
 mod tests {
     use super::*;
